@@ -242,7 +242,7 @@ class Gen:
             if corr is not None:
                 args["correlation"] = corr
             if p.with_bw and (cat in ("gpu_memcpy", "gpu_memset")):
-                args["memory bandwidth (GB/s)"] = rng.choice([0.5, 1.0, 2.25, 8.0, 16.5, 100.0])
+                args["memory bandwidth (GB/s)"] = rng.choice([0.5, 1.0, 2.25, 8.0, 16.5, 100.0, 0.25, 3.75])
                 args["bytes"] = rng.choice([4, 1024, 65536])
             return {"ph": "X", "cat": cat, "name": nm, "pid": gpu_pid, "tid": s, "ts": ts, "dur": dur, "args": args}
 
@@ -429,3 +429,6 @@ _reg(Profile(name="diff", n_steps=(1, 4), n_ranks=(1, 3), tmax_choices=(24, 40, 
 _reg(Profile(name="idle", tmax_choices=(8, 12, 20, 40, 110, 600), n_ranks=(1, 2), p_launch=0.6, p_same_ts_as_launch=0.25, p_missing_kernel=0.1,
              p_orphan_kernel=0.35, p_kernel_zero=0.12, n_streams=(1, 2), p_zero_dur=0.05))
 _reg(Profile(name="idle_steps", tmax_choices=(20, 40, 110), n_ranks=(1, 2), n_steps=(0, 3), p_launch=0.6, p_orphan_kernel=0.3, n_streams=(1, 2)))
+_reg(Profile(name="queue", tmax_choices=(6, 8, 12, 20, 40), n_ranks=(1, 2), p_launch=0.7, p_mem_launch=0.4, p_same_ts_as_launch=0.45, p_missing_kernel=0.1,
+             p_orphan_kernel=0.2, p_kernel_zero=0.15, n_streams=(1, 3), p_zero_dur=0.1, max_children=5))
+_reg(Profile(name="queue_wide", tmax_choices=(110, 600, 5000), n_ranks=(1, 2), p_launch=0.7, p_mem_launch=0.4, n_streams=(1, 3), n_steps=(0, 3)))
